@@ -157,11 +157,23 @@ impl Prop for C09 {
                 };
                 out.violate("C09", class, format!("{kind} [{}] results under lf and crlf differ beyond the terminators", base.short()), &input, Some(&base));
             }
-            // (c) input endings irrelevant
+            // (b) exactly: when nothing in the input is kept verbatim across lines, the crlf result is the lf
+            // result with every terminator substituted - also inside multi-line literals that did not
+            // have to be re-indented
             let lone_cr = input.replace("\r\n", "").contains('\r');
+            if !has_verbatim_multiline(&input, base.format_multiline_strings) && !lone_cr && !o_lf.contains('\r') && !fallback {
+                out.count("lf_crlf_exact_substitution_compared");
+                if o_lf.replace('\n', "\r\n") != o_cr {
+                    let class = if wf::mlstr_starts_logical_line(&input) { "mlstr-first-on-logical-line" } else { "lf-crlf-results-differ" };
+                    let at = o_lf.replace('\n', "\r\n").bytes().zip(o_cr.bytes()).position(|(x, y)| x != y).unwrap_or(0);
+                    out.violate("C09", class, format!("{kind} [{}] the crlf result is not the lf result with each terminator substituted (first difference at byte {at}: …{:?}…)", base.short(), excerpt(&o_cr, at, 30)), &input, Some(&cr));
+                }
+            }
+            // (c) input endings irrelevant (under either configured ending)
             if !has_verbatim_multiline(&input, base.format_multiline_strings) && !lone_cr {
                 let x_lf = input.replace("\r\n", "\n");
                 let x_cr = x_lf.replace('\n', "\r\n");
+                let lf = if rng.bool() { lf.clone() } else { cr.clone() };
                 if let (Some((a, oa)), Some((b, ob))) = (common::run(&mut out, &lf, &x_lf), common::run(&mut out, &lf, &x_cr)) {
                     out.count("input_ending_pairs_compared");
                     if a != b {
